@@ -22,15 +22,38 @@ var c15seps = []string{"", " ", "\t", "'", `"`, `\`, "=", ";", "--", "/*", "*/",
 
 type c15stmt struct {
 	toks    []gen.Tok
-	pwTok   int // index of the password literal token
+	pwTok   int                    // index of the password literal token
 	params  map[string]interface{} // bound parameters the statement uses (user name written as a placeholder)
-	pwEnd   int // index of the last token of the password (== pwTok unless it is split over adjacent literals)
+	pwEnd   int                    // index of the last token of the password (== pwTok unless it is split over adjacent literals)
 	markers []string
 	pw      string
 	user    string
+	trap    string // where a clause look-alike was put ("" = nowhere)
 }
 
 var c15users = []string{"admin", "jo hn", "a=b", `q"t`, "x'y", "password", "for", "with", "é", "a = b", "u--c", "pass word for x = ", "İstanbul", "KelvinKK", "ẞtraße", "ȺȾ", "ΩΩÅ", "日本語"}
+
+// Clause look-alikes: the words that open a password clause, placed where
+// they are not a clause (inside a quoted name, a string literal, a regex or a
+// comment).
+var c15trapNames = []string{"with password '", "with password 'x", `x with password "`, "set password for a = '", "password for a='b", "WITH PASSWORD 'p", "with\npassword '", "a with password"}
+
+var c15trapStmts = []struct{ text, where string }{
+	{"SELECT 'with password' FROM x", "string-literal"},
+	{"SELECT v FROM m WHERE h = 'with password'", "string-literal"},
+	{"SELECT v FROM m WHERE h = 'set password for u = '", "string-literal"},
+	{"SELECT v FROM m WHERE h = 'x with password \\''", "string-literal"},
+	{`SELECT v FROM m WHERE "with password" = 1`, "quoted-identifier"},
+	{`SELECT v FROM "password for u = '"`, "quoted-identifier"},
+	{`DROP USER "with password '"`, "quoted-identifier"},
+	{"SELECT v FROM m WHERE h =~ /with password '/", "regex"},
+	{"SELECT v FROM /password for u = '/", "regex"},
+	{"SELECT v FROM m /* with password */", "comment"},
+	{"SELECT v FROM m -- with password '\n", "comment"},
+	{"SELECT v /* set password for u = 'old' */ FROM m", "comment"},
+}
+
+var c15trapComments = []string{" /* with password */ ", " -- with password '\n", " /* set password for u = 'old' */ ", " /* WITH PASSWORD 'q */ ", " -- password for u =\n"}
 
 func c15Markers(rg *mon.Rng, n int) []string {
 	const al = "BCDFGHJKLMNPQRSTVWXZ"
@@ -66,6 +89,10 @@ func c15Gen(rg *mon.Rng) *c15stmt {
 	s.user = c15users[rg.Intn(len(c15users))]
 	if rg.P(0.3) {
 		s.user = "u" + fmt.Sprint(rg.Intn(1000))
+	} else if rg.P(0.06) {
+		// the words of a password clause inside the (quoted) user name
+		s.user = c15trapNames[rg.Intn(len(c15trapNames))]
+		s.trap = "quoted-identifier"
 	}
 	if rg.Bool() {
 		b.Kw("CREATE USER")
@@ -161,6 +188,12 @@ var c15Exotic = []string{"\v", "\f", "\u0085", "\u00a0", "\u1680", "\u2003", "\u
 
 // c15RenderX: the gap in front of token exoticAt (when >= 0) is one exotic blank.
 func c15RenderX(rg *mon.Rng, toks []gen.Tok, want, wantEnd int, comments bool, exoticAt int) (string, int, int) {
+	return c15RenderT(rg, toks, want, wantEnd, comments, exoticAt, nil)
+}
+
+// c15RenderT: with trap != nil, a comment may carry the words of a password
+// clause; *trap is set when one was written.
+func c15RenderT(rg *mon.Rng, toks []gen.Tok, want, wantEnd int, comments bool, exoticAt int, trap *string) (string, int, int) {
 	var sb strings.Builder
 	st, en := -1, -1
 	for i, t := range toks {
@@ -175,6 +208,10 @@ func c15RenderX(rg *mon.Rng, toks []gen.Tok, want, wantEnd int, comments bool, e
 			}
 			if comments && rg.P(0.3) {
 				g = g + []string{" /* c */ ", " -- c\n", "\n/* x = 'y' */\n", " /* password 'zz' */ ", " /* two\nlines */ ", " /* * ** / */ ", " -- İ\u212A\r\n", " /* was: set password for u = [REDACTED] */ ", " -- [REDACTED]\n"}[rg.Intn(9)]
+			}
+			if trap != nil && comments && rg.P(0.05) {
+				g = g + c15trapComments[rg.Intn(len(c15trapComments))]
+				*trap = "comment"
 			}
 			if i == exoticAt {
 				g = c15Exotic[rg.Intn(len(c15Exotic))]
@@ -285,15 +322,23 @@ func c15CheckP(c *Ctx, text string, spans []c15span, markers []string, detBase m
 		why = "marker " + leak + " survives in Sanitize output; " + structural
 	}
 	why += " | Sanitize=" + trunc(san, 400)
-	if key := c15Known(text, spans); key != "" && r.Known(key, text) {
+	trap, _ := detBase["trap"].(string)
+	if key := c15Known(trap); key != "" && r.Known(key, text) {
 		local["known."+key]++
 		return
 	}
 	r.Violation("sanitize", det(why))
 }
 
-// c15Known recognises the known Sanitize deviations by the shape of the text.
-func c15Known(text string, spans []c15span) string { return "" }
+// c15Known names the known Sanitize deviation for a text in which the harness
+// put the words of a password clause inside a quoted name, a string literal, a
+// regex or a comment (trap says where; "" = nowhere, nothing is known).
+func c15Known(trap string) string {
+	if trap == "" {
+		return ""
+	}
+	return "clause-words-inside-" + trap
+}
 
 func checkC15(c *Ctx) (string, bool, []string) {
 	r := c.R
@@ -314,7 +359,7 @@ func checkC15(c *Ctx) (string, bool, []string) {
 				markers = append(markers, x.(string))
 			}
 		}
-		c15Check(c, replayStr(c, "input"), spans, markers, map[string]interface{}{"spans": c.Replay["spans"]}, local)
+		c15Check(c, replayStr(c, "input"), spans, markers, map[string]interface{}{"spans": c.Replay["spans"], "trap": c.Replay["trap"]}, local)
 		return rule, false, assume
 	}
 	n := c.N(40000, 1000000)
@@ -330,9 +375,18 @@ func checkC15(c *Ctx) (string, bool, []string) {
 		var markers []string
 		var params map[string]interface{}
 		comments := rg.P(0.25)
+		trap := ""
 		for j := 0; j < nst; j++ {
 			if j > 0 {
 				sb.WriteString([]string{";", "; ", " ;\n", ";\n"}[rg.Intn(4)])
+			}
+			if nst > 1 && rg.P(0.08) && !(j == nst-1 && len(spans) == 0) {
+				ts := c15trapStmts[rg.Intn(len(c15trapStmts))]
+				sb.WriteString(ts.text)
+				if trap == "" {
+					trap = ts.where
+				}
+				continue
 			}
 			if nst > 1 && rg.P(0.4) && !(j == nst-1 && len(spans) == 0) {
 				gc := genCase(c.Seed, "c15.other", i*4+j, -1, -1, gen.Opts{MaxDepth: 1}, "random")
@@ -347,7 +401,14 @@ func checkC15(c *Ctx) (string, bool, []string) {
 				exoticAt = 1 + rg.Intn(len(s.toks)-1)
 				local["exotic-blank-variants"]++
 			}
-			t, st, en := c15RenderX(rg, s.toks, s.pwTok, s.pwEnd, comments, exoticAt)
+			ctrap := ""
+			t, st, en := c15RenderT(rg, s.toks, s.pwTok, s.pwEnd, comments, exoticAt, &ctrap)
+			if trap == "" {
+				trap = s.trap
+			}
+			if trap == "" {
+				trap = ctrap
+			}
 			if s.pwEnd != s.pwTok {
 				local["split-literal-variants"]++
 			}
@@ -392,7 +453,10 @@ func checkC15(c *Ctx) (string, bool, []string) {
 			_ = influxql.Sanitize(text[:len(text)/2])
 			local["decoy-called-first"]++
 		}
-		c15CheckP(c, text, spans, markers, map[string]interface{}{"spans": sj, "params": fmt.Sprintf("%v", params)}, local, params)
+		if trap != "" {
+			local["clause-words-inside-"+trap+"(texts)"]++
+		}
+		c15CheckP(c, text, spans, markers, map[string]interface{}{"spans": sj, "params": fmt.Sprintf("%v", params), "trap": trap}, local, params)
 		r.DistinctStr(text)
 		if comments {
 			local["with-comments"]++
